@@ -1,8 +1,14 @@
 // Further command groups are included and registered here.
 #include "core/directives_include.h"
 #include "cmd_prog.h"
+#include "cmd_isa.h"
+#include "cmd_cond.h"
+#include "cmd_sym.h"
 
 static void register_all()
 {
   register_prog();
+  register_isa();
+  register_cond();
+  register_sym();
 }
